@@ -16,7 +16,7 @@ BASE_NOTE = (
 
 CLAIMS = {
     "C01": ("dataflow over the dispatcher CFG + who-may-call", "Pairing request<->response, notification silence, error-code mapping, single writer, loop survival and ordering by construction are decided for every path of the server loop, the dispatcher and the connection senders (hence for every message sequence); JSON-serialisability only for definite non-JSON constructs. Not decided: content of the handlers' results."),
-    "C16": ("def-use + template matching on framing sites, CFG path search in the receiver", "Writer half decided completely (announced length = UTF-8 byte length of the body written, frame layout, UTF-8 + flush, binary std streams); reader half structurally (every header line reaches the Content-Length parser, body read only with a known length, bytes cut before decoding); URI quote/unquote pairing; byte counts and character counts are never compared, subtracted or requested against each other on the reading side. Not decided: behaviour of the underlying buffered stream under partial reads."),
+    "C16": ("def-use + template matching on framing sites, CFG path search in the receiver", "Writer half decided completely (announced length = UTF-8 byte length of the body written, frame layout, UTF-8 + flush, binary std streams); reader half structurally (every header line reaches the Content-Length parser, body read only with a known length, bytes cut before decoding, never decoded block by block); URI quote/unquote pairing; byte counts and character counts are never compared, subtracted or requested against each other on the reading side. Not decided: behaviour of the underlying buffered stream under partial reads."),
 }
 
 CLAIMS.update({
@@ -25,7 +25,7 @@ CLAIMS.update({
 })
 
 CLAIMS.update({
-    "C20": ("SCCs of the resolved call graph, edge classification (tree / name-resolved link / text) from all field stores, guard recognition on dominating facts", "Every recursive component of the call graph is enumerated; each recursive call is classified by the object it descends through, and every cycle that follows a name-resolved link (link_obj, inherit_var, ancestor_obj, workspace lookups, included files) must pass a guard: visited collection (G1), generation stamp (G2), depth counter (G3), absorbed RecursionError (G4), link field acyclic by construction - every store dominated by a chain walk (G5), one-shot flag (G6). Link-following loops must be bounded; the parent/children graph may only receive freshly built objects or ancestry-tested grafts; the recursion limit is applied before indexing. Not decided: time bounds, non-recursive blow-ups, recursion hidden behind unresolved dynamic calls."),
+    "C20": ("SCCs of the resolved call graph, edge classification (tree / name-resolved link / text) from all field stores, guard recognition on dominating facts", "Every recursive component of the call graph is enumerated; each recursive call is classified by the object it descends through, and every cycle that follows a name-resolved link (link_obj, inherit_var, ancestor_obj, workspace lookups, included files) must pass a guard: visited collection (G1), generation stamp (G2), depth counter (G3), absorbed RecursionError (G4), link field acyclic by construction - every store dominated by a chain walk whose answer cannot be invalidated by a link writer called in between (G5), one-shot flag (G6). Link-following loops must be bounded; the parent/children graph may only receive freshly built objects or ancestry-tested grafts; the recursion limit is applied before indexing. Not decided: time bounds, non-recursive blow-ups, recursion hidden behind unresolved dynamic calls."),
 })
 
 CLAIMS.update({
@@ -33,17 +33,17 @@ CLAIMS.update({
 })
 
 CLAIMS.update({
-    "C02": ("regex-language enumeration of the line splitter, def-use/shape matching of the splice, dominators in the edit routine", "Decides: the splitter's language is exactly {LF, CRLF, CR} with CRLF consumed as one, on both ingestion paths; trailing-newline fix-up agrees with the splitter; every buffer mutation keeps contents_pp/nLines in step and is dominated by the hash reset; changes applied forwards, once, abort on failure; splice provenance (prefix ends at range start, suffix starts at range end, strict copy condition); every entry-exit path of the didChange handler applies the content changes or posts a message (no change notification is dropped silently); a range coordinate re-bound before the splice is clamped only to the length of the line it addresses. Not decided: the splice arithmetic for every range (value-level)."),
-    "C03": ("interprocedural dominating-facts analysis (nullability, non-emptiness), def-use taint into regex sinks, regex-tree ambiguity query, loop-progress check on per-loop CFGs", "Decides four mechanisms by which text kills this parser: parser state that is None outside constructs is never dereferenced unguarded (with lock-step twin, establishing calls, caller obligations, result-conditioned summaries); constant end-subscripts on possibly empty text are guarded; document/option text reaches no pattern unescaped and no replacement template unescaped, no pattern has ambiguous nested unbounded repetition; every while loop of the indexing code has a progress statement on every cycle; a call result that is unpacked, subscripted, iterated or dereferenced on the spot comes from functions that return a value on every path; macro-table values (text, (args, body) tuples, anything the JSON configuration supplies) are used as text only where a path-sensitive kind analysis shows them to be text (conversion, type test, pattern cache keyed by what the entry's kind depends on). Not decided: absence of every other exception, concrete time bounds."),
+    "C02": ("regex-language enumeration of the line splitter, def-use/shape matching of the splice, dominators in the edit routine", "Decides: the splitter's language is exactly {LF, CRLF, CR} with CRLF consumed as one, on both ingestion paths, and it is not memoised (the list becomes the file's mutable buffer); trailing-newline fix-up agrees with the splitter; every buffer mutation keeps contents_pp/nLines in step and is dominated by the hash reset; changes applied forwards, once, abort on failure; splice provenance (prefix ends at range start, suffix starts at range end, strict copy condition); every entry-exit path of the didChange handler applies the content changes or posts a message (no change notification is dropped silently); a range coordinate re-bound before the splice is clamped only to the length of the line it addresses. Not decided: the splice arithmetic for every range (value-level)."),
+    "C03": ("interprocedural dominating-facts analysis (nullability, non-emptiness), def-use taint into regex sinks, regex-tree ambiguity query, loop-progress check on per-loop CFGs", "Decides four mechanisms by which text kills this parser: parser state that is None outside constructs is never dereferenced unguarded (with lock-step twin, establishing calls, caller obligations, result-conditioned summaries); constant end-subscripts on possibly empty text are guarded; document/option text reaches no pattern unescaped and no replacement template unescaped, no pattern has ambiguous nested unbounded repetition; every while loop of the indexing code has a progress statement on every cycle; a call result that is unpacked, subscripted, iterated or dereferenced on the spot comes from functions that return a value on every path; macro-table values (text, (args, body) tuples, anything the JSON configuration supplies) are used as text only where a path-sensitive kind analysis shows them to be text (conversion, type test, pattern cache keyed by what the entry's kind depends on); a pop() right after a push takes from a push that is never empty. Not decided: absence of every other exception, concrete time bounds."),
 })
 
 CLAIMS.update({
-    "C13": ("regex-tree queries (cased letters vs IGNORECASE, end anchors), case lattice over string expressions (def-use, field and container stores, call-site substitution)", "Decides: every pattern that spells out letters and is applied to Fortran text carries IGNORECASE; no entity name is compared as written, and where one side of a comparison or look-up is case-normalised the other is normalised alike (violations only on provably raw operands; underivable cases are reported as undecided); one LF/CRLF/CR splitter for both ingestion paths; end-anchored statement patterns tolerate trailing blanks or their argument is right-stripped. Not decided: continuation/semicolon handling, comment insertion, line shifts (behaviour of get_code_line/parse on text)."),
+    "C13": ("regex-tree queries (cased letters vs IGNORECASE, end anchors), case lattice over string expressions (def-use, field and container stores, call-site substitution)", "Decides: every pattern that spells out letters and is applied to Fortran text carries IGNORECASE; no entity name is compared as written, and where one side of a comparison or look-up is case-normalised the other is normalised alike (violations only on provably raw operands; underivable cases are reported as undecided); one LF/CRLF/CR splitter for both ingestion paths; end-anchored statement patterns tolerate trailing blanks (look-aheads evaluated at the end of the text) or their argument is right-stripped. Not decided: continuation/semicolon handling, comment insertion, line shifts (behaviour of get_code_line/parse on text)."),
     "C14": ("regex-tree queries on the fixed-form lexical patterns + dominating-facts check of every free/fixed pattern use", "Decides: FIXED_COMMENT/FIXED_DOC start with exactly {! c C d D *} and are applied at column 1, FIXED_CONT is five blanks plus a non-blank, LINE_LABEL is digits plus blank; every use of a FREE_* pattern is in the not-fixed arm of a test of the form flag and the function has a fixed-form arm; every whole-buffer writer re-detects the form and the parser re-derives its comment patterns; the stripped label reaches the labelled-DO closer, which closes every DO sharing the label; the free-form evidence of detect_fixed_format is examined independently of the comment-flag test; both fixed-form arms of the statement assembler store continuation lines with their label/marker columns blanked. Not decided: equality of the two renderings' indexes, the remaining content heuristics of detect_fixed_format."),
 })
 
 CLAIMS.update({
-    "C10": ("interprocedural write-effect summaries (roots self/param/global, freshness, return aliasing) + CFG dominance in the resolvers and the re-index routine", "Decides which state can survive re-indexing at all: no read-only request (nor computing diagnostics) writes a field of the server, a file, an AST or an entity; every resolver that looks a name up resets or reassigns its link on every path and link containers are emptied before refilling; no link is cached outside the re-link path; old top-level entries are pruned before the new AST is installed, a failed parse touches nothing, closing a deleted file prunes; parsing does not mutate the option objects it is given. Not decided: equality with a fresh server over all histories."),
+    "C10": ("interprocedural write-effect summaries (roots self/param/global, freshness, return aliasing) + CFG dominance in the resolvers and the re-index routine", "Decides which state can survive re-indexing at all: no read-only request (nor computing diagnostics) writes a field of the server, a file, an AST or an entity; every resolver that looks a name up resets or reassigns its link on every path and link containers are emptied before refilling; no link is cached outside the re-link path; old top-level entries are pruned before the new AST is installed, on every re-index path (no condition on the routine's parameters), a failed parse touches nothing, closing a deleted file prunes; parsing does not mutate the option objects it is given. Not decided: equality with a fresh server over all histories."),
     "C15": ("effect summary of the pool worker + dominance/order checks of the phase structure + sibling comparison", "Decides the phase structure that makes the start-up index schedule-independent: the worker is a static function whose transitive writes touch only fresh objects and the per-process keyword-order global; join precedes the first result.get(); the merge loop resolves nothing across files; includes for all files, version bump, then links for all files - at start-up and on every open/save; both indexing paths construct and parse files with the same arguments; the include and link calls are unconditional inside the whole-workspace loops; a derived type forces its parent's inheritance on every path before copying the parent's members; a process-wide parse setting that workers receive as an argument holds the same option value in the server process when initialisation ends (event order over constructor + initialize, including the configuration load). Not decided: order-dependence inside the resolvers, pickling fidelity, unordered sources of the file list."),
 })
 
@@ -52,7 +52,7 @@ CLAIMS.update({
 })
 
 CLAIMS.update({
-    "C04": ("table agreement between statement readers, parser dispatch, END patterns and kind tables (regex trees + AST), line-base dimension analysis", "Decides the tables END matching rests on: every construct is closed by a pattern that shares its opener's keyword and whose keywords END_WORD lists; non-unit constructs require a container; the set of tags produced by the statement readers equals the set the parser dispatches on; both symbol-kind tables have an explicit arm for every entity type and stay within the SymbolKinds the protocol offers for that notion; 1-based entity lines reach symbol ranges through exactly one `- 1`; the workspace query is case-insensitive on both operands, sorted by name and skips entries without a file. Not decided: END matching on arbitrary nestings, containers, exact start/end lines."),
+    "C04": ("table agreement between statement readers, parser dispatch, END patterns and kind tables (regex trees + AST), line-base dimension analysis", "Decides the tables END matching rests on: every construct is closed by a pattern that shares its opener's keyword and whose keywords END_WORD lists; non-unit constructs require a container; the set of tags produced by the statement readers equals the set the parser dispatches on; both symbol-kind tables have an explicit arm for every entity type and stay within the SymbolKinds the protocol offers for that notion; 1-based entity lines reach symbol ranges through exactly one `- 1`; the workspace query is case-insensitive on both operands, sorted by name and skips entries without a file; every statement reader applies its opener pattern at the start of the line (match() or an anchored pattern). Not decided: END matching on arbitrary nestings, containers, exact start/end lines."),
 })
 
 CLAIMS.update({
@@ -61,11 +61,11 @@ CLAIMS.update({
 })
 
 CLAIMS.update({
-    "C06": ("regex-tree query on the occurrence matcher (zero-width neighbours, hole inside the group, escape, flags), def-use of match spans into hit records, dominating facts at the record point, sibling comparison of the references and rename handlers", "Decides the mechanics that turn occurrences into ranges: one searcher is shared by references, documentHighlight and rename; its pattern consumes nothing but the name (so adjacent occurrences are all found), the name is inserted through re.escape and matched case-insensitively; a hit's record is (0-based line index, start, end) of the name group and the hit is re-resolved at a column inside the identifier; the searched text is comment-stripped by a string-literal-aware cut, preprocessor lines are skipped, a hit is recorded only under a non-None resolution and an identity (qualified-name) comparison, the word expander tries character-literal patterns before the word pattern; rename and references call the searcher with the same arguments under the same restriction code (compared up to the spelling of comparisons) and pass line/start/end and newName through unchanged; the search is restricted to one file only under the nested-entity test (FQSN depth > 2). Not decided: which occurrences bind to the entity (get_definition's answer, C05), continuation lines."),
+    "C06": ("regex-tree query on the occurrence matcher (zero-width neighbours, hole inside the group, escape, flags), def-use of match spans into hit records, dominating facts at the record point, sibling comparison of the references and rename handlers", "Decides the mechanics that turn occurrences into ranges: one searcher is shared by references, documentHighlight and rename; its pattern consumes nothing but the name (so adjacent occurrences are all found), the name is inserted through re.escape and matched case-insensitively; a hit's record is (0-based line index, start, end) of the name group and the hit is re-resolved at a column inside the identifier; the searched text is comment-stripped by a string-literal-aware cut, preprocessor lines are skipped, a hit is recorded only under a non-None resolution and an identity (qualified-name) comparison, the word expander tries character-literal patterns before the word pattern and no pattern that can start with an operator sign or digit before it; rename and references call the searcher with the same arguments under the same restriction code (compared up to the spelling of comparisons) and pass line/start/end and newName through unchanged; the search is restricted to one file only under the nested-entity test (FQSN depth > 2). Not decided: which occurrences bind to the entity (get_definition's answer, C05), continuation lines."),
 })
 
 CLAIMS.update({
-    "C08": ("dominating facts at every statement-reader call and every define/undef/include site, regex-tree enumeration of parenthesis skeletons, def-use of the macro table through the recursive include call, taint of macro text into regex sinks", "Decides necessary conditions around the conditional state machine: in parse() every statement reader is behind the skip test, which tests the same 1-based line variable against region[0] <= line <= region[1] and the directive-line list produced by the preprocessing pass of the same parse (run iff preproc); region bounds are stored as i + 1; #define, #undef, #include and directive-line recording happen only under a flag computed over the whole stack of open conditionals; macro and parameter names are escaped and bodies never used as replacement templates; every match of the `defined` rewriting pattern has balanced parentheses and the looked-up group is the identifier; the macro table is a copy, passed to and taken back from included files, used by every condition, stored on the file; the expansion cache is keyed by everything its entries are computed from, or invalidated at every place that removes a definition or replaces the table (#undef, the table handed back by an included file). Not decided (said plainly): that the #if/#elif/#else automaton and the expression evaluator agree with a reference preprocessor for all nestings and truth assignments, and character-exact expansion of function-like macro arguments."),
+    "C08": ("dominating facts at every statement-reader call and every define/undef/include site, regex-tree enumeration of parenthesis skeletons, def-use of the macro table through the recursive include call, taint of macro text into regex sinks", "Decides necessary conditions around the conditional state machine: in parse() every statement reader is behind the skip test, which tests the same 1-based line variable against region[0] <= line <= region[1] and the directive-line list produced by the preprocessing pass of the same parse (run iff preproc); region bounds are stored as i + 1; #define, #undef, #include and directive-line recording happen only under a flag computed over the whole stack of open conditionals; macro and parameter names are escaped and bodies never used as replacement templates; every match of the `defined` rewriting pattern has balanced parentheses and the looked-up group is the identifier; the macro table is a copy, passed to and taken back from included files, used by every condition, stored on the file; the expansion cache is keyed by everything its entries are computed from, or invalidated at every place that removes a definition or replaces the table (#undef, the table handed back by an included file); the per-macro skip test of the substitution loop reads the line as rewritten so far. Not decided (said plainly): that the #if/#elif/#else automaton and the expression evaluator agree with a reference preprocessor for all nestings and truth assignments, and character-exact expansion of function-like macro arguments."),
 })
 
 CLAIMS.update({
